@@ -343,7 +343,30 @@ def prepare(hyps: List[z3.BoolRef], goal: z3.BoolRef, extra_terms=()):
             inst = []
             for q in allq:
                 inst += instantiate(q, cands2)
-        pieces.append({"goal": g, "hyps_qf": ground + ex_ground + inst, "hyps_full": ground + ex_ground + inst + allq})
+        # a small, goal-directed instantiation (index terms of the goal side and hint terms only) is tried first by the solver
+        small_c = []
+        for t, kd in [(z3.simplify(t), kd) for t, kd in index_terms([g] + ex_ground)]:
+            if not any(t.get_id() == t0.get_id() and kd == k0 for t0, k0 in small_c):
+                small_c.append((t, kd))
+        for t in list(skolems) + list(extra_terms):
+            if not any(t.get_id() == t0.get_id() for t0, _ in small_c):
+                small_c.append((t, "any"))
+        small_c += [c for c in cands if c[1] == "any" and c[0].sort().name() == "Ref"][:12]
+        inst_small = []
+        if len(small_c) < len(cands):
+            for q in allq:
+                inst_small += instantiate(q, small_c)
+            more_s = []
+            for t, kd in index_terms(inst_small):
+                t = z3.simplify(t)
+                if not any(t.get_id() == t0.get_id() and kd == k0 for t0, k0 in small_c + more_s):
+                    more_s.append((t, kd))
+            if more_s and len(more_s) <= 30:
+                inst_small = []
+                for q in allq:
+                    inst_small += instantiate(q, small_c + more_s)
+        pieces.append({"goal": g, "hyps_qf": ground + ex_ground + inst, "hyps_full": ground + ex_ground + inst + allq,
+                       "hyps_small": (ground + ex_ground + inst_small) if inst_small else None})
     return pieces
 
 
@@ -462,6 +485,13 @@ def _nth_def(S, J, nth_int):
     if k == z3.Z3_OP_ITE:
         c, A, B = S.children()
         return [z3.Implies(c, nth_int(S, J) == nth_int(A, J)), z3.Implies(z3.Not(c), nth_int(S, J) == nth_int(B, J))]
+    if k == z3.Z3_OP_SELECT and z3.is_app(S.arg(0)) and S.arg(0).decl().kind() == z3.Z3_OP_STORE:
+        # a list read out of an updated map:  store(A, k, V)[b]  is V when b == k and A[b] otherwise
+        A, kk, V = S.arg(0).children()
+        b = S.arg(1)
+        return [z3.Implies(b == kk, nth_int(S, J) == nth_int(V, J)),
+                z3.Implies(b != kk, nth_int(S, J) == nth_int(z3.Select(A, b), J)),
+                z3.Implies(b == kk, z3.Length(S) == z3.Length(V))]
     if k == z3.Z3_OP_SEQ_EXTRACT:
         X, o, l = S.children()
         return [z3.Implies(z3.And(0 <= J, J < l, 0 <= o, o + J < z3.Length(X)), nth_int(S, J) == nth_int(X, z3.simplify(o + J)))]
